@@ -101,6 +101,7 @@ struct Run {
     dcalm: Vec<bool>,
     /// per dispatch: the accept thread's availability bits (by worker index) right after it
     davail: Vec<Vec<bool>>,
+    dmarked: Vec<bool>,
     ever_faulted: bool,
     pending_faults: Vec<usize>,
     injected: Vec<usize>, // outstanding injected errors per listener
@@ -202,7 +203,7 @@ impl Run {
             "served": served, "closed": closed,
             "listener": s.listener.iter().map(|l| l + 1).collect::<Vec<_>>(),
             "connected": s.connected,
-            "dlog": self.dlog.iter().enumerate().map(|(k, d)| json!([d.0, d.1, d.2, d.3, d.4, d.5, self.dcalm.get(k).copied().unwrap_or(false), self.davail.get(k).cloned().unwrap_or_default()])).collect::<Vec<_>>(),
+            "dlog": self.dlog.iter().enumerate().map(|(k, d)| json!([d.0, d.1, d.2, d.3, d.4, d.5, self.dcalm.get(k).copied().unwrap_or(false), self.davail.get(k).cloned().unwrap_or_default(), self.dmarked.get(k).copied().unwrap_or(true)])).collect::<Vec<_>>(),
             "faults": s.faults, "everFaulted": self.ever_faulted,
             "cmdq": pending_faults(s),
             "skipped": s.skipped,
@@ -353,6 +354,7 @@ fn run_schedule(run_id: usize, sch: &Value, dir: &str, trace: &mut Trace, strict
         calm_phase: false,
         dcalm: vec![],
         davail: vec![],
+        dmarked: vec![],
         ever_faulted: false,
         pending_faults: vec![],
         injected: vec![0; listeners.len()],
@@ -614,6 +616,7 @@ fn absorb(run: &mut Run, s: &Snap) {
             (cid + 1, *wi, s.dclean.get(k).copied().unwrap_or(false), s.dload.get(k).copied().unwrap_or(0), s.dafterfail.get(k).copied().unwrap_or(false), *gen)
         })
         .collect();
+    run.dmarked = s.dmarked.clone();
     run.davail = s.davail.iter().map(|m| (0..run.killed.len()).map(|i| m & (1 << i) != 0).collect()).collect();
     for k in run.dcalm.len()..s.dispatched.len() {
         let below = s.dmaxload.get(k).map(|m| *m < run.limit).unwrap_or(false);
